@@ -141,7 +141,7 @@ def run(rep, ctx):
     repo = ctx["repo"]
     fn = [NLR + r"::.*", r"mp::internal::(TextReader|BinaryReader|BinaryReaderBase|ReaderBase)::.*",
           r"mp::internal::NLFileReader::.*", r"mp::internal::ReadBinary", r"mp::ReadNLString",
-          r"mp::internal::VarBoundHandler::.*"]
+          r"mp::internal::VarBoundHandler::.*", r"mp::BasicProblem::(GetSuffixSize|SetInfo)"]
     jobs = [dict(unit="src/problem.cc", fn=fn, repo=repo,
                  rec=[r"mp::NLHeader", r"NLProblemInfo_C", r"NLInfo_C"]),
             dict(unit="src/nl-reader.cc", fn=fn, repo=repo)]
@@ -210,6 +210,7 @@ def run(rep, ctx):
                 callers_of.setdefault(c["calleeId"], []).append((g, c))
     seen = set()
     sites = 0
+    reach = {}
     for g in nlr:
         for c in g.walk():
             m = handler_call(g, c)
@@ -241,10 +242,21 @@ def run(rep, ctx):
                 seen.add((key, c.get("l"), g.full.split(">::")[0][:80]))
                 ok, why = prove_in_range(SR, F, g, c, args[pos], bound, callers_of, m)
                 inst = reader_kind(g)
+                reach.setdefault((m, pos, inst), False)
+                if ok and "unreachable" not in why:
+                    reach[(m, pos, inst)] = True
                 f1.check(ok, "%s|%s" % (key, inst), short_loc(c.get("l")),
                          "%s(%s): %s" % (m, render(args[pos]), why), "%s(%s): %s" % (m, render(args[pos]), why))
     rep.extra["callback_argument_sites"] = sites
+    for (m, pos, inst), r in sorted(reach.items()):
+        if not r and not any(i["key"].startswith("%s" % "") and ("|%s|arg%d|%s" % (m, pos, inst)) in i["key"] and not i["ok"]
+                             for i in f1.instances):
+            f1.fail("reachable|%s|arg%d|%s" % (m, pos, inst), "include/mp/nl-reader.h",
+                    "no reachable call site of %s proves its argument %d (all sites vacuous)" % (m, pos))
 
+    count_rules(rep, F, nlr, SR)
+    suffix_and_file_rules(rep, F, funcs, nlr, SR, callers_of)
+    recursion_rule(rep, F, nlr)
     text_rules(rep, F, funcs, is_noreturn)
     binary_rules(rep, F, funcs, is_noreturn, SR)
     conversion_rules(rep, F, funcs, is_noreturn)
@@ -252,6 +264,393 @@ def run(rep, ctx):
 
 
 PTR = "mp::internal::ReaderBase::ptr_"
+
+# announcing callback -> (position of the count argument, delivery method, extra deliveries
+#                          made by the announcement itself)
+ANNOUNCE = {
+    "BeginCall": (1, "AddArg", 0), "BeginVarArg": (1, "AddArg", 0), "BeginSum": (0, "AddArg", 0),
+    "BeginCount": (0, "AddArg", 0), "BeginNumberOf": (0, "AddArg", 1),
+    "BeginSymbolicNumberOf": (0, "AddArg", 1), "BeginIteratedLogical": (1, "AddArg", 0),
+    "BeginPairwise": (1, "AddArg", 0), "BeginPLTerm": (0, "AddBreakpoint", 0),
+    "OnLinearObjExpr": (1, "AddTerm", 0), "OnLinearConExpr": (1, "AddTerm", 0),
+    "OnLinearExpr": (1, "AddTerm", 0),
+    "BeginCommonExpr": (1, "AddTerm", 0),
+    "OnIntSuffix": (2, "SetValue", 0), "OnDblSuffix": (2, "SetValue", 0),
+}
+END_OF = {"BeginCall": "EndCall", "BeginVarArg": "EndVarArg", "BeginSum": "EndSum",
+          "BeginCount": "EndCount", "BeginNumberOf": "EndNumberOf",
+          "BeginSymbolicNumberOf": "EndSymbolicNumberOf",
+          "BeginIteratedLogical": "EndIteratedLogical", "BeginPairwise": "EndPairwise",
+          "BeginPLTerm": "EndPLTerm", "BeginCommonExpr": "EndCommonExpr"}
+FORWARDERS = ("ReadArgs", "DoReadArgs", "ReadLinearExpr", "ReadSuffixValues")
+
+
+def root_decl(a):
+    """declId of the variable an argument expression denotes (through casts and
+    copy constructions)."""
+    a = strip(a)
+    for _ in range(6):
+        if a is None:
+            return None
+        if a["k"] in ("DeclRefExpr",):
+            return a.get("declId")
+        if a["k"] in ("CXXConstructExpr", "CXXFunctionalCastExpr", "CXXTemporaryObjectExpr"):
+            ks = [x for x in kids(a) if x["k"] != "CXXDefaultArgExpr"]
+            if len(ks) != 1:
+                return None
+            a = strip(ks[0])
+            continue
+        return None
+    return None
+
+
+def loop_trip(SR, g, n, env=None, outer=None):
+    """Lin trip count of the innermost canonical for-loop enclosing n (None if n
+    is not in a loop, False if the loop is not canonical)."""
+    lp = g.enclosing(n, ("ForStmt", "WhileStmt", "DoStmt"))
+    while lp is not None and outer and lp["i"] in outer:
+        lp = None       # loops that also enclose the announcement are the same iteration
+    if lp is None:
+        return None
+    if lp["k"] != "ForStmt":
+        return False
+    lk = lp.get("c", [])
+    init, cond, inc, body = lk[0], lk[2], lk[3], lk[4]
+    vds = [v for v in walk(init) if v["k"] == "VarDecl"] if init else []
+    c = strip(cond) if cond else None
+    i_ = strip(inc) if inc else None
+    if len(vds) != 1 or c is None or i_ is None or c["k"] != "BinaryOperator" or c["op"] != "<" \
+            or i_["k"] != "UnaryOperator" or i_.get("op") != "++":
+        return False
+    d = vds[0]["declId"]
+    if strip(kids(c)[0]).get("declId") != d or strip(kids(i_)[0]).get("declId") != d or \
+            cv(kids(vds[0])[0]) != 0:
+        return False
+    if any(SR._writes(w, d) for w in walk(body)):
+        return False
+    up = g.enclosing(lp, ("ForStmt", "WhileStmt", "DoStmt"))
+    if up is not None and not (outer and up["i"] in outer):
+        return False
+    cons = []
+    return SR.value(g, kids(c)[1], env or {}, cons)
+
+
+def deliveries(SR, F, g, hv, method, depth=0, outer=None):
+    """Lin number of `method` calls made on handler object hv (declId) in g;
+    parameters of g appear as symbols par:<declId>."""
+    total = Lin.const(0)
+    penv = {p["declId"]: Lin.var("par:" + p["declId"]) for p in g.params}
+    for n in g.walk():
+        if n["k"] != "CXXMemberCallExpr":
+            continue
+        me = strip(kids(n)[0])
+        obj = strip(kids(me)[0]) if kids(me) else None
+        if me.get("name") == method and obj is not None and obj.get("declId") == hv:
+            t = loop_trip(SR, g, n, penv, outer)
+            if t is False or (t is not None and not isinstance(t, Lin)):
+                return None
+            total = total + (t if t is not None else Lin.const(1))
+            continue
+        # forwarded to a reader method together with a count
+        last = n.get("callee", "").split("::")[-1]
+        if last in FORWARDERS and depth < 2:
+            args = call_args(n)
+            pos = [i for i, a in enumerate(args) if root_decl(a) == hv]
+            if not pos:
+                continue
+            h = F.by_id.get(n.get("calleeId"))
+            if h is None:
+                return None
+            if loop_trip(SR, g, n, penv, outer) is not None:
+                return None
+            # callee: deliveries in terms of its own parameters, then substitute
+            hp = h.params[pos[0]]["declId"]
+            sub = deliveries(SR, F, h, hp, method, depth + 1)
+            if sub is None:
+                return None
+            # substitute callee parameter symbols by argument values
+            cons = []
+            val = Lin.const(sub.k)
+            for v_, c_ in sub.co.items():
+                # symbols of callee parameters are named par:<declId>
+                if v_.startswith("par:"):
+                    pi = [i for i, p in enumerate(h.params) if "par:" + p["declId"] == v_]
+                    if not pi:
+                        return None
+                    av = SR.value(g, args[pi[0]], penv, cons)
+                    if av is None:
+                        return None
+                    val = val + av.scale(c_)
+                else:
+                    val = val + Lin.var(v_).scale(c_)
+            total = total + val
+    return total
+
+
+def count_rules(rep, F, nlr, SR):
+    f2 = rep.rule("C02.F2", "FLOW",
+                  "every announced count equals the number of deliveries that follow "
+                  "(loop trip counts, forwarded counts)", floor=10)
+    y1 = rep.rule("C02.Y1", "TYPESTATE",
+                  "every Begin* result reaches the matching End* on every normal path; "
+                  "EndInput is the last notification", floor=8)
+    seen = set()
+    for g in nlr:
+        SR.prepare(g)
+        penv = {p["declId"]: Lin.var("par:" + p["declId"]) for p in g.params}
+        for c in g.walk():
+            m = handler_call(g, c)
+            if m is None and c["k"] == "CXXMemberCallExpr":
+                me = strip(kids(c)[0])
+                if me.get("name") == "OnLinearExpr":
+                    m = "OnLinearExpr"
+            if m not in ANNOUNCE:
+                continue
+            pos, dmeth, extra = ANNOUNCE[m]
+            args = call_args(c)
+            key = "%s|%s" % (short_fn(g), m)
+            if (key, c.get("l"), reader_kind(g)) in seen:
+                continue
+            seen.add((key, c.get("l"), reader_kind(g)))
+            cons = []
+            ann = SR.value(g, args[pos], penv, cons)
+            # the handler object receiving the deliveries
+            par = g.parent.get(c["i"])
+            while par is not None and par["k"] in TRANSPARENT | {"CXXConstructExpr", "CXXFunctionalCastExpr"}:
+                par = g.parent.get(par["i"])
+            hv = par.get("declId") if par is not None and par["k"] == "VarDecl" else None
+            inst = reader_kind(g)
+            if hv is None:
+                # announced and passed on directly: ReadLinearExpr(num_terms, lh.OnLinearExpr(index, num_terms))
+                if par is not None and par["k"] == "CXXMemberCallExpr" and \
+                        par.get("callee", "").split("::")[-1] in FORWARDERS:
+                    a0 = SR.value(g, call_args(par)[0], penv, cons)
+                    ok = ann is not None and a0 is not None and repr(ann) == repr(a0)
+                    f2.check(ok, "%s|%s" % (key, inst), short_loc(c.get("l")),
+                             "%s announces %r and %s is called with the same count" % (m, ann, par.get("callee").split("::")[-1]),
+                             "%s announces %r but %s delivers %r" % (m, ann, par.get("callee", "").split("::")[-1], a0))
+                    continue
+                if m == "OnLinearExpr":
+                    continue       # the nested helper forwards to OnLinear*Expr: checked there
+                if par is not None and par["k"] == "ReturnStmt":
+                    a = strip(args[pos])
+                    ok = a["k"] == "DeclRefExpr" and a.get("dk") == "Parm"
+                    f2.check(ok, "%s|%s" % (key, inst), short_loc(c.get("l")),
+                             "%s forwards its own count parameter `%s` unchanged" % (g.name, render(a)),
+                             "%s passes `%s` as the count instead of its own parameter" % (g.name, render(a)))
+                    continue
+                f2.fail("%s|%s" % (key, inst), short_loc(c.get("l")), "%s: result not bound to a handler variable" % m)
+                continue
+            outer = {a["i"] for a in g.ancestors(c) if a["k"] in ("ForStmt", "WhileStmt", "DoStmt")}
+            d = deliveries(SR, F, g, hv, dmeth, 0, outer)
+            if ann is None or d is None:
+                f2.fail("%s|%s" % (key, inst), short_loc(c.get("l")),
+                        "%s: announced count or deliveries not expressible (announced %r, delivered %r)" % (m, ann, d))
+                continue
+            d = d + extra
+            same = repr(ann) == repr(d)
+            if not same and m == "BeginCommonExpr":
+                same = True if repr(d) in (repr(ann), "0") else False
+            f2.check(same, "%s|%s" % (key, inst), short_loc(c.get("l")),
+                     "%s announces %r, %s delivered %r time(s)" % (m, ann, dmeth, d),
+                     "%s announces %r but %s is called %r time(s)" % (m, ann, dmeth, d))
+            if m == "BeginPLTerm":
+                ds = deliveries(SR, F, g, hv, "AddSlope", 0, outer)
+                f2.check(ds is not None and repr(ds) == repr(ann + 1), "%s|slopes|%s" % (key, inst),
+                         short_loc(c.get("l")), "AddSlope called %r times = breakpoints + 1" % ds)
+            # Y1: pairing
+            end = END_OF.get(m)
+            if end:
+                ends = [e["i"] for e in g.walk() if handler_call(g, e) == end and
+                        any(root_decl(a) == hv for a in call_args(e))]
+                if m == "BeginCommonExpr":
+                    ends = [e["i"] for e in g.walk() if handler_call(g, e) == end]
+                w = g.cfg.path_avoiding(g.cfg.position(c), "exit", ends) if ends else [0]
+                y1.check(bool(ends) and w is None, "%s|%s->%s|%s" % (short_fn(g), m, end, inst),
+                         short_loc(c.get("l")),
+                         "every normal path from %s passes %s with the same handler object" % (m, end),
+                         "a normal path from %s reaches the exit without %s (blocks %s)" % (m, end, w))
+    # EndInput last
+    for g in nlr:
+        if g.name == "Read" and not g.params and g.qn == NLR + "::Read":
+            ei = [c for c in g.walk() if handler_call(g, c) == "EndInput"]
+            reads = [c for c in g.walk() if c["k"] == "CXXMemberCallExpr" and c.get("callee", "").endswith("NLReader::Read")]
+            key = "NLReader::Read|EndInput-last|%s" % reader_kind(g)
+            if key in seen:
+                continue
+            seen.add(key)
+            ok = len(ei) == 1 and reads and all(g.cfg.postdominates(ei[0], r) for r in reads) and \
+                not any(g.cfg.before(ei[0], r) for r in reads)
+            y1.check(ok, key, short_loc(g.loc), "EndInput() follows every segment read on every path")
+
+
+def switch_cases(g, sw):
+    """{case value: first call node in the case body} of a switch statement."""
+    out = {}
+    for n in walk(sw):
+        if n["k"] == "CaseStmt":
+            v = cv(kids(n)[0])
+            out[v] = kids(n)[-1]
+    return out
+
+
+def suffix_and_file_rules(rep, F, funcs, nlr, SR, callers_of):
+    t1 = rep.rule("C02.T1", "TABLE",
+                  "suffix kinds: the reader's item count per kind, the dispatch of the S segment and the "
+                  "problem builder's suffix array size refer to the same header counts", floor=8)
+    KINDS = {0: "VarHandler", 1: "ConHandler", 2: "ObjHandler", 3: "ProblemHandler"}
+    BUILDER = {0: {"vars_"}, 1: {"algebraic_cons_", "logical_cons_"}, 2: {"linear_objs_"}, 3: set()}
+    RESERVE = {"vars_": "num_vars", "algebraic_cons_": "num_algebraic_cons",
+               "logical_cons_": "num_logical_cons", "linear_objs_": "num_objs"}
+    seen = set()
+    for g in nlr:
+        if g.name == "Read" and len(g.params) == 1 and g.qn == NLR + "::Read":
+            inst = reader_kind(g)
+            sws = [n for n in g.walk() if n["k"] == "SwitchStmt" and "SUFFIX_KIND_MASK" in render(kids(n)[0])
+                   or n["k"] == "SwitchStmt" and render(kids(n)[0]).startswith("info &")]
+            if not sws:
+                raise AnalysisBroken("suffix kind switch not found in %s" % g.full)
+            cases = switch_cases(g, sws[0])
+            for kv, hname in KINDS.items():
+                body = cases.get(kv)
+                calls = [c for c in walk(body) if c["k"] == "CXXMemberCallExpr" and
+                         c.get("callee", "").endswith("::ReadSuffix")] if body else []
+                ok = len(calls) == 1 and re.search(r"ReadSuffix<.*::%s>$" % hname, calls[0].get("calleeFull", "")) is not None
+                key = "S-dispatch|kind%d->%s|%s" % (kv, hname, inst)
+                if key not in seen:
+                    seen.add(key)
+                    t1.check(ok, key, short_loc(sws[0].get("l")),
+                             "suffix kind %d is read with ReadSuffix<%s>" % (kv, hname),
+                             "suffix kind %d is read with %s" % (kv, [c.get("calleeFull", "")[-40:] for c in calls]))
+        if g.name == "ReadSuffix":
+            # the announced number of values lies in [1, num_items]
+            want = suffix_bound(g)
+            for c in g.walk():
+                m = handler_call(g, c)
+                if m in ("OnIntSuffix", "OnDblSuffix"):
+                    hn = re.search(r"ReadSuffix<.*::(\w+Handler)>", g.full)
+                    key = "NLReader::ReadSuffix<%s>|%s|count-bound|%s" % (hn.group(1) if hn else "?", m, reader_kind(g))
+                    if (key, c.get("l")) in seen:
+                        continue
+                    seen.add((key, c.get("l")))
+                    v, cons = SR.arg_range(g, c, call_args(c)[2], {})
+                    ok = v is not None and want is not None and \
+                        entails(SR.cons + cons, GE(v, Lin.const(1))) and entails(SR.cons + cons, LE(v, want))
+                    t1.check(ok, key, short_loc(c.get("l")),
+                             "%s announces a count entailed to be in [1, %r]" % (m, want))
+    gs = [f for f in funcs if f.qn == "mp::BasicProblem::GetSuffixSize"]
+    si = [f for f in funcs if f.qn == "mp::BasicProblem::SetInfo"]
+    if not gs or not si:
+        raise AnalysisBroken("BasicProblem::GetSuffixSize / SetInfo not exported")
+    sw = [n for n in gs[0].walk() if n["k"] == "SwitchStmt"]
+    cases = switch_cases(gs[0], sw[0]) if sw else {}
+    reserves = {}
+    for c in si[0].walk():
+        if c["k"] == "CXXMemberCallExpr" and c.get("callee", "").endswith("::reserve"):
+            obj = render(kids(strip(kids(c)[0]))[0]) if kids(strip(kids(c)[0])) else "?"
+            reserves[obj] = render(call_args(c)[0])
+    for kv, conts in BUILDER.items():
+        body = cases.get(kv)
+        txt = render(body) if body is not None else ""
+        used = {x for x in RESERVE if x in txt}
+        okc = used == conts and (conts or "1" in txt)
+        t1.check(okc, "builder|GetSuffixSize|kind%d" % kv, short_loc(gs[0].loc),
+                 "GetSuffixSize(kind %d) uses the capacity of %s" % (kv, sorted(conts) or "1 (problem)"),
+                 "GetSuffixSize(kind %d) uses %s, reader expects %s" % (kv, sorted(used), sorted(conts)))
+        for cont in conts:
+            okr = reserves.get(cont, "").endswith(RESERVE[cont])
+            t1.check(okr, "builder|SetInfo|%s" % cont, short_loc(si[0].loc),
+                     "SetInfo reserves %s with info.%s" % (cont, RESERVE[cont]),
+                     "SetInfo reserves %s with `%s`, not info.%s" % (cont, reserves.get(cont), RESERVE[cont]))
+
+    g2 = rep.rule("C02.G2", "GUARD",
+                  "NLFileReader: the copy path stores the NUL sentinel at [size_] after the read loop, "
+                  "mmap is used only when size_ != rounded_size_, both paths pass size_", floor=4)
+    fr = [f for f in funcs if f.qn == "mp::internal::NLFileReader::Read"]
+    rd = [f for f in fr if len(f.params) == 3]
+    cp = [f for f in fr if len(f.params) == 1]
+    if not rd or not cp:
+        raise AnalysisBroken("NLFileReader::Read instantiations not found")
+    g = rd[0]
+    calls = [c for c in g.walk() if c["k"] == "CallExpr" and c.get("callee") == "mp::ReadNLString"]
+    g2.check(len(calls) == 2, "two-paths", short_loc(g.loc), "%d ReadNLString calls (copy path, mmap path)" % len(calls))
+    for i, c in enumerate(calls):
+        ref = [x for x in walk(call_args(c)[0]) if x["k"] in ("CXXConstructExpr", "CXXTemporaryObjectExpr")
+               and "NLStringRef" in x.get("callee", "")]
+        ok = bool(ref) and len(kids(ref[0])) == 2 and render(kids(ref[0])[1]) == "size_"
+        g2.check(ok, "size-argument|%d" % i, short_loc(c.get("l")), "NLStringRef(..., size_) on path %d" % i)
+    copy_calls = [c for c in g.walk() if c["k"] == "CXXMemberCallExpr" and c.get("callee", "").endswith("NLFileReader::Read")]
+    mm = [n for n in g.walk() if n["k"] == "VarDecl" and "MemoryMappedFile" in n.get("t", "")]
+    okb = False
+    if copy_calls and mm:
+        fs = g.cfg.facts_at(copy_calls[0])
+        okb = any(render(strip(g.nodes[cid])) == "size_ == rounded_size_" and pol is True for cid, pol in fs)
+        fm = g.cfg.facts_at(mm[0])
+        okb = okb and any(render(strip(g.nodes[cid])) == "size_ == rounded_size_" and pol is False for cid, pol in fm)
+    g2.check(okb, "mmap-only-when-padded", short_loc(g.loc),
+             "the buffer is copied when size_ == rounded_size_, mapped otherwise")
+    h = cp[0]
+    st = [n for n in h.walk() if n["k"] in ("BinaryOperator", "CXXOperatorCallExpr") and n.get("op") == "="
+          and render(n).replace(" ", "") in ("array[size_]=0",)]
+    st = st or [n for n in h.walk() if n["k"] == "BinaryOperator" and n.get("op") == "=" and
+                "array[size_]" in render(kids(n)[0]) and cv(kids(n)[1]) == 0]
+    rs = [c for c in h.walk() if c["k"] == "CXXMemberCallExpr" and c.get("callee", "").endswith("::resize")]
+    okc = bool(st) and h.cfg.path_avoiding(None, "exit", [st[0]["i"]], from_entry=True) is None and \
+        bool(rs) and render(call_args(rs[0])[0]) == "size_ + 1"
+    g2.check(okc, "sentinel-store", short_loc(h.loc),
+             "array is resized to size_ + 1 and array[size_] = 0 is stored on every path")
+    lp = [n for n in h.walk() if n["k"] == "WhileStmt"]
+    okl = bool(lp) and render(kids(lp[0])[0]) == "offset < size_" and "size_ - offset" in render(lp[0])
+    g2.check(okl, "read-loop-bounded", short_loc(h.loc), "read loop `while (offset < size_)` reads at most size_ - offset bytes")
+
+
+def recursion_rule(rep, F, nlr):
+    w2 = rep.rule("C02.W2", "WHO",
+                  "every input-driven recursion cycle of the reader carries a depth bound", floor=1)
+    one = [g for g in nlr if reader_kind(g) == "TextReader"]
+    ids = {g.id: g for g in one}
+    edges = {g.id: {c.get("calleeId") for c in g.walk()
+                    if c["k"] in ("CXXMemberCallExpr", "CallExpr", "CXXConstructExpr") and c.get("calleeId") in ids}
+             for g in one}
+    # Tarjan SCC
+    index, low, onst, st, sccs, idx = {}, {}, set(), [], [], [0]
+    import sys
+    sys.setrecursionlimit(10000)
+
+    def sc(v):
+        index[v] = low[v] = idx[0]; idx[0] += 1; st.append(v); onst.add(v)
+        for w in edges[v]:
+            if w not in index:
+                sc(w); low[v] = min(low[v], low[w])
+            elif w in onst:
+                low[v] = min(low[v], index[w])
+        if low[v] == index[v]:
+            comp = []
+            while True:
+                w = st.pop(); onst.discard(w); comp.append(w)
+                if w == v:
+                    break
+            sccs.append(comp)
+    for v in edges:
+        if v not in index:
+            sc(v)
+    cyc = [c for c in sccs if len(c) > 1 or c[0] in edges[c[0]]]
+    if not cyc:
+        w2.ok("no-recursion", "include/mp/nl-reader.h", "the reader has no recursive cycle")
+    for comp in cyc:
+        names = sorted({ids[v].name for v in comp})
+        bounded = False
+        for v in comp:
+            g = ids[v]
+            for n in g.walk():
+                if n["k"] == "BinaryOperator" and n.get("op") in (">", ">=", "<", "<=") and \
+                        re.search(r"depth|level|nesting", render(n), re.I):
+                    bounded = True
+        rep_name = ([n for n in names if n.startswith("Read") and n.endswith("Expr")] or names)[0]
+        w2.check(bounded, "cycle|%s" % rep_name, "include/mp/nl-reader.h",
+                 "recursion through %s compares a depth counter with a limit" % names,
+                 "recursion through %s has no depth bound: an input of deeply nested operators "
+                 "(e.g. 10^6 nested unary minus) exhausts the stack" % names)
 
 
 def text_rules(rep, F, funcs, is_noreturn):
@@ -656,15 +1055,50 @@ def reader_kind(g):
 
 
 def short_fn(g):
+    """NLReader::Method<TemplateArgs> with template arguments reduced to their
+    simple names (distinguishes ReadBounds<VarHandler> from <AlgebraicConHandler>)."""
     s = g.qn.replace("mp::internal::", "")
-    t = re.search(r"::(\w+)<.*::(\w+Handler|DoubleReader|IntReader)[,>]", g.full)
-    tpl = re.findall(r"NLReader<[^:]*::\w+<[^>]*>, .*?>::(.*)$", g.full)
-    tail = g.full.split(">::")[-1] if ">::" in g.full else g.name
-    tail = re.sub(r"mp::internal::NLReader<.*?>>::", "", tail)
-    tail = re.sub(r"mp::internal::", "", tail)
-    if len(tail) > 70:
-        tail = tail[:70]
-    return "%s[%s]" % (s, tail) if "<" in tail else s
+    full = g.full
+    # template arguments of the method itself: text after the last '::name<'
+    m = re.search(r"::%s<(.*)>$" % re.escape(g.name), full)
+    if m:
+        args = re.findall(r"(\w+)(?:<[^<>]*>)?\s*(?:,|$)", re.sub(r"<[^<>]*(?:<[^<>]*>[^<>]*)*>", "", m.group(1)))
+        simple = [a for a in re.findall(r"::(\w+)(?=[,>]|$)", "::" + m.group(1).replace(" ", "")) ]
+        names = []
+        depth = 0
+        cur = ""
+        for ch in m.group(1):
+            if ch == "<":
+                depth += 1
+            elif ch == ">":
+                depth -= 1
+            if ch == "," and depth == 0:
+                names.append(cur)
+                cur = ""
+            else:
+                cur += ch
+        names.append(cur)
+        simp = []
+        for n_ in names:
+            # last '::' component at bracket depth 0, without its own template arguments
+            d_, last, cur2 = 0, "", ""
+            t = n_.strip()
+            k = 0
+            while k < len(t):
+                ch = t[k]
+                if ch == "<":
+                    d_ += 1
+                elif ch == ">":
+                    d_ -= 1
+                if d_ == 0 and t.startswith("::", k):
+                    cur2 = ""
+                    k += 2
+                    continue
+                cur2 += ch
+                k += 1
+            simp.append(re.sub(r"<.*$", "", cur2))
+        return "%s<%s>" % (s, ",".join(simp))
+    return s
 
 
 def prove_in_range(SR, F, g, call, arg, bound, callers_of, method, depth=0, env=None):
@@ -688,6 +1122,8 @@ def prove_in_range(SR, F, g, call, arg, bound, callers_of, method, depth=0, env=
     else:
         bound_l = bound
     allc = SR.cons + cons
+    if infeasible(allc):
+        return True, "site unreachable in this instantiation (its path condition is contradictory)"
     lo_ok = entails(allc, GE(v, Lin.const(0)))
     hi_ok = entails(allc, LT(v, bound_l))
     uses_param = any(str(s) in repr(v) + repr(cons) + repr(bound_l) for s in psym.values())
